@@ -214,6 +214,10 @@ pub struct LoopScn {
     /// phase): several threads unwinding at different points of one round.
     pub panic2: Option<PanicPlan>,
     pub spurious_parks: Vec<(usize, u32)>,
+    /// `Timer::Os` instead of `Timer::Tsc`: the OS timer reads the virtual
+    /// clock through hook H9 (virtual ticks are nanoseconds; the clock's
+    /// frequency must be 10^9).
+    pub os_timer: bool,
     /// Thread count of a small benchmark run first on the same shared
     /// context (one thread pool reused by consecutive benchmarks with
     /// different thread counts, as in a real run); 0 = none.
@@ -252,6 +256,7 @@ impl Default for LoopScn {
             panic: None,
             panic2: None,
             spurious_parks: Vec::new(),
+            os_timer: false,
             prelude_threads: 0,
         }
     }
@@ -379,6 +384,7 @@ impl LoopScn {
             })),
             "spurious_parks": self.spurious_parks.iter().map(|&(t, k)| json!([t, k])).collect::<Vec<_>>(),
             "prelude_threads": self.prelude_threads,
+            "os_timer": self.os_timer,
         })
     }
 
@@ -454,6 +460,7 @@ impl LoopScn {
                 .map(|p| Some((p[0].as_u64()? as usize, p[1].as_u64()? as u32)))
                 .collect::<Option<Vec<_>>>()?,
             prelude_threads: v["prelude_threads"].as_u64().unwrap_or(0) as usize,
+            os_timer: v["os_timer"].as_bool().unwrap_or(false),
         })
     }
 
@@ -490,7 +497,7 @@ impl LoopScn {
             }
         }
         h.u64(self.spurious_parks.len() as u64);
-        h.u64(self.prelude_threads as u64);
+        h.u64(self.prelude_threads as u64 | (self.os_timer as u64) << 8);
         h.finish()
     }
 
@@ -523,7 +530,7 @@ impl LoopScn {
             max_time: self.max_time.map(to_duration),
             skip_ext_time: self.skip_ext,
             const_counters: self.const_counters,
-            tsc_frequency: Some(self.clock.frequency),
+            tsc_frequency: if self.os_timer { None } else { Some(self.clock.frequency) },
         }
     }
 
@@ -1102,6 +1109,17 @@ pub fn pick_clock(rng: &mut Rng, with_quantum: bool) -> ClockCfg {
     let start = *rng.pick(&[0u64, 0, 1, 1 << 32, 1 << 63, 123_456_789_012]);
     let read_cost = if step > 1 { unaliased_read_cost(step, rng.range((step / 4).max(1), step)) } else { rng.range(1, 30) };
     ClockCfg { frequency, step, start, read_cost, skew: Vec::new() }
+}
+
+/// Decides (1 run in 5) that the loop uses `Timer::Os` and fixes the clock
+/// to nanosecond ticks. Call right after the clock was chosen and before
+/// costs and time limits are derived from its frequency.
+pub fn maybe_os_timer(rng: &mut Rng, scn: &mut LoopScn) {
+    if rng.chance(1, 5) {
+        scn.os_timer = true;
+        scn.clock.frequency = 1_000_000_000;
+        scn.clock.start = scn.clock.start.min(1 << 62);
+    }
 }
 
 pub fn pick_cost(rng: &mut Rng, lo: u64, hi: u64) -> Cost {
